@@ -71,6 +71,10 @@ def classify_time_read(repo, f, node, d):
 
 
 def run(repo, res):
+    from . import rowspace
+
+    res.rule("R11.3", "results do not depend on node numbering: grid rows (stored in nonfixed_nodes order, i.e. sorted by input time) are assigned to node ids only through that same array, never through a mask or arange, which would enumerate nodes by ascending id")
+    rowspace.run(repo, res, "R11.3")
     res.rule("R11.1", "taint: on the discrete-time path every read of the input node-time column is the time of sample nodes (indexed by sample ids / fixed mask), a sort key (argument of argsort/lexsort or a field of a structured array passed only to argsort) or a dtype query -- never an arithmetic operand, likelihood argument or initial value")
     res.rule("R11.2", "node-id opacity: node ids are compared only for equality / membership and used as indices; an ordering comparison or arithmetic between a node id and a count-derived expression is a violation (constructs under ignore_oldest_root are C38's)")
     ty = engine(repo, Typing)
@@ -128,7 +132,7 @@ def run(repo, res):
     res.floor("node_id_comparisons", n_cmp, 5)
 
 
-VARIANTS = [
+VARIANTS = [dict(v, rule="R11.3") for v in __import__("sa.rules.rowspace", fromlist=["VARIANTS"]).VARIANTS] + [
     dict(name="input-time-as-initial-value", mod="discrete", expect="fire", rule="R11.1", old="        maximized_node_times = np.zeros(self.ts.num_nodes, dtype=\"int\")", new="        maximized_node_times = np.searchsorted(self.lik.timepoints, self.ts.nodes_time).astype(\"int\")"),
     dict(name="input-time-in-likelihood", mod="discrete", expect="fire", rule="R11.1", old="                spanfrac = edge.span / self.spans[edge.child]\n                # Calculate vals for each edge", new="                spanfrac = edge.span / self.spans[edge.child] + 0 * self.ts.nodes_time[edge.child]\n                # Calculate vals for each edge"),
     dict(name="prior-uses-input-times", mod="prior", expect="fire", rule="R11.1", old="    datable_nodes = np.where(datable_nodes)[0]\n\n    # convert timepoints", new="    datable_nodes = np.where(datable_nodes)[0]\n    scale_param = scale_param * (1 + ts.nodes_time.max())\n\n    # convert timepoints"),
